@@ -141,11 +141,14 @@ ThrowErr(st, cls, nid) == Cmp(Alloc(st, <<HErr(cls, "", nid, TRUE)>>), CThrow(VR
 \*   Dev_NoRuntimeLoc  : errors raised by the engine itself carry no location of their own (None, or the location of an
 \*                       unrelated earlier throw statement that happens to precede them in the source map)
 \*   Dev_NoLocInFunctions : only the top-level code of a script has a source map; a throw inside a function sets nothing
+\*   Dev_LocNextStatement : the location is looked up one instruction too late: when another statement follows the raising
+\*                          one in the bytecode, that statement's position is reported (some line / column, not the right one)
 AsIsLoc(st, ov, r) ==
   IF r.t # "loc" THEN [v |-> r, d |-> ""]
   ELSE LET ho == st.heap[ov.r] IN
        IF ho.rt /\ D(st, "Dev_NoRuntimeLoc") THEN [v |-> [t |-> "anyloc"], d |-> "Dev_NoRuntimeLoc"]
        ELSE IF ~ho.rt /\ ho.infn /\ D(st, "Dev_NoLocInFunctions") THEN [v |-> [t |-> "hostnone"], d |-> "Dev_NoLocInFunctions"]
+       ELSE IF D(st, "Dev_LocNextStatement") THEN [v |-> [t |-> "anyloc"], d |-> "Dev_LocNextStatement"]
        ELSE [v |-> r, d |-> ""]
 RetOrThrow(st, ov, r, nid) ==
   IF r.t = "throwmark" THEN ThrowErr(st, "TypeError", nid)
